@@ -5,6 +5,7 @@ from __future__ import annotations
 from ..interp import alternatives, analyze, truth
 from ..model import AnalysisError, Model
 from ..report import Ctx, where
+from ..strtpl import flatten
 from ..terms import NONE, show, walk
 
 # the lattice: name -> (exact builtin type or None, set of builtin bases it is a subclass of (incl. itself), has __int__)
@@ -178,6 +179,31 @@ def qv3(ctx: Ctx):
                 ctx.ob(rule, q, f"raise {cls} for bytes-like query", cls == "TypeError", "bytes-like queries must raise TypeError", where(fi, node), sample="TypeError")
 
 
+def _pair_elements(r, t, q):
+    """The element expressions of the list of pairs: a comprehension's element(s), or everything appended to a list
+    that starts empty (loop form). None when t is neither; exit 2 on list operations the rule does not know."""
+    if t[0] == "comp":
+        return list(t[2])
+    root = t
+    while root[0] == "mut":
+        root = root[1]
+    if root[0] != "phi":
+        return None
+    name = root[2]
+    start = [x for x in r.phis.get((root[1], name), ()) if x[0] not in ("mut", "phi")]
+    if any(x != ("list", ()) for x in start):
+        return None
+    out = []
+    for e in r.by_kind("mutate"):
+        if e.on_name != name:
+            continue
+        if e.method != "append" or len(e.args) != 1:
+            raise AnalysisError(f"{q}: list of pairs changed by `{e.method}` (unknown idiom)")
+        if e.args[0] not in out:
+            out.append(e.args[0])
+    return out
+
+
 def pair_quoting(ctx: Ctx, quoter_roles):
     """Every key and value of a serialised pair passes the query-part quoter; pairs are joined with '&', key and value with '='."""
     model = ctx.model
@@ -190,20 +216,22 @@ def pair_quoting(ctx: Ctx, quoter_roles):
         for s, v, node in r.returns:
             ctx.instance(rule)
             problems = []
-            if not (v[0] == "call" and v[1] == ("attr", ("const", "&"), "join") and len(v[2]) == 1 and v[2][0][0] == "comp"):
+            elts = None
+            if v[0] == "call" and v[1] == ("attr", ("const", "&"), "join") and len(v[2]) == 1:
+                elts = _pair_elements(r, v[2][0], q)
+            if elts is None:
                 problems.append(f"result {show(v)[:60]} is not '&'.join(<pairs>)")
             else:
-                comp = v[2][0]
-                for elt in comp[2]:
-                    if elt[0] != "fstr":
-                        problems.append(f"pair {show(elt)[:60]} is not a formatted string")
-                        continue
-                    parts = elt[1]
-                    consts = [p[1] for p in parts if p[0] == "const"]
-                    fmts = [p[1] for p in parts if p[0] == "fmt"]
-                    if consts != ["="] or len(fmts) != 2:
+                if not elts:
+                    problems.append("no pair is ever produced")
+                for elt in elts:
+                    parts = flatten(elt)        # '<key>=<value>' in any spelling
+                    lits = [p[1] for p in parts if p[0] == "lit"]
+                    vals = [p[1] for p in parts if p[0] == "val"]
+                    if lits != ["="] or len(vals) != 2 or len(parts) != 3 or parts[1][0] != "lit":
                         problems.append(f"pair template {show(elt)[:60]} is not '<key>=<value>'")
-                    for f in fmts:
+                        continue
+                    for f in vals:
                         if not (f[0] == "call" and quoter_roles(f[1]) == "querypart" and len(f[2]) == 1):
                             problems.append(f"{show(f)[:50]} is not passed through the query-part quoter")
                         else:
